@@ -10,22 +10,22 @@ CHECKS = {
  "C02": ("model_checking", "E1", "explicit-state search (own parallel BFS) over edit histories incl. character-level tag-line edits; real git diff; per-block edit classification fixes selection and content flag; verdicts compared with a full scan of the same tree",
          "5 rule-carrying templates (Python over two files, JS with content on the tag's line and a multi-byte character before the tag, JS tag on line 2 of a 3-line comment, Markdown, nested); every history of ≤2 (thorough ≤3) whole-line edits and 10 kinds of character-level tag edits (inside/outside the `<`…`>` span, end-tag comment, same-line content); `git diff -U{0,3}` (thorough 0,1,3,10) without path argument, with `**` and with one file as path argument; selected set, is_content_modified and every selected block's diagnostics vs the full scan",
          "lines pairwise distinct so git's diff equals the edit script; whole-line edits adjoining a tag line are don't-care; same known findings as C01", "§2 C02"),
- "C03": ("model_checking", "E1", "explicit-state search (stateright BFS) over construction-kit segment sequences per grammar; real parser executed in every state against blocks known by construction",
+ "C03": ("model_checking", "E1", "explicit-state search (level-synchronous parallel BFS; stateright selectable) over construction-kit segment sequences per grammar; real parser executed in every state against blocks known by construction",
          "for each of the 23 grammars (all 39 registered suffixes): every sequence of ≤3 (thorough ≤4) segments — code, string/markup decoys holding tag text, plain comments, start/end tags at every offset of 1- and 3-line comments of every comment form (line, block, doc, decorated, Markdown link-reference with all three title delimiters, HTML/XML), two tags per comment — closed into a balanced file, rendered LF and CRLF, with ASCII and multi-byte text around tags; attributes, line/byte column of `<`, exact content, pairing and source order compared with the construction",
          "tree-sitter grammars trusted on the kits' well-formed scaffolds (kit self-test); one leading line terminator of a content is don't-care; bounded scope", "§2 C03"),
- "C04": ("model_checking", "E1", "explicit-state search (stateright) over token soups per grammar + exhaustive one-mutation neighbourhoods of seed files + real git diffs of hostile files; supervised child process attributes aborts/hangs",
+ "C04": ("model_checking", "E1", "explicit-state search (parallel BFS; stateright selectable) over token soups per grammar + exhaustive one-mutation neighbourhoods of seed files + real git diffs of hostile files; supervised child process attributes aborts/hangs",
          "per grammar every sequence of ≤3 (thorough ≤4) tokens over comment delimiters, tag fragments, a rule-laden start tag, quotes, newline, NBSP, combining mark, emoji, and ≤4 (≤5) over the core tokens; every single-token insertion/replacement/deletion at every token boundary of a seed file for all 39 suffixes (thorough: pairs of insertions); every real `git diff` between files of ≤2 (≤3) diff-look-alike lines; each run in scan and diff mode must end in a report or an error, never a panic, abort or hang (10 s watchdog)",
          "\"any UTF-8 string\" is covered only through the token alphabets; tree-sitter internals are exercised, not modelled", "§2 C04"),
- "C05": ("model_checking", "E1", "explicit-state search (stateright) over attribute lists printed into three host comment forms; print/parse round trip against the printed AST",
+ "C05": ("model_checking", "E1", "explicit-state search (parallel BFS; stateright selectable) over attribute lists printed into three host comment forms; print/parse round trip against the printed AST",
          "every attribute list of 0..2 (thorough 0..3) attributes over (5 names incl. non-ASCII and duplicate) × (14 value forms: bare, unquoted ASCII / non-ASCII / with - and _, empty, with space, `>`, other quote, `=<`, `</block>`, non-ASCII, a whole start tag) × 3 separators × 3 `=` layouts, 3 closing spellings, 8 surrounding noises, in `#`, `/* */` and `<!-- -->` hosts; attributes (last duplicate wins) and position of `<` compared; 17 look-alikes × noises × hosts alone and beside real blocks; 6 end-tag spellings",
          "4–6 attributes not enumerated; host comments delivered by tree-sitter (C03)", "§2 C05"),
- "C06": ("model_checking", "E1", "explicit-state search (stateright BFS) over content-line sequences, real validator executed in every state against a reference sorter",
+ "C06": ("model_checking", "E1", "explicit-state search (level-synchronous parallel BFS; stateright selectable) over content-line sequences, real validator executed in every state against a reference sorter",
          "every sequence of ≤4 (thorough ≤5) content lines over a 16-line alphabet (ordered, equal, prefix-related, indented, trailing blank, blank, numeric-looking, pattern lines, case) plus an extended unicode/number alphabet, under every direction spelling × pattern × format; the real parse+validate pipeline runs in every state and must agree with the reference on presence, uniqueness and location of the diagnostic",
          "regex crate trusted for which substring matches; tree-sitter trusted to deliver one-line # comments; bounded scope (longer blocks and other alphabets are not covered)", "§2 C06–C09"),
- "C07": ("model_checking", "E1", "explicit-state search (stateright BFS) over content-line sequences against a reference duplicate finder",
+ "C07": ("model_checking", "E1", "explicit-state search (level-synchronous parallel BFS; stateright selectable) over content-line sequences against a reference duplicate finder",
          "every sequence of ≤4 (thorough ≤5) lines over a 12-line alphabet with repeated keys, keys differing only in indentation / trailing blanks / outside the regex group, blank and non-matching lines, × {bare, empty, group regex, plain regex, anchored regex}",
          "regex crate trusted; bounded scope", "§2 C06–C09"),
- "C08": ("model_checking", "E1", "explicit-state search (stateright BFS) over content-line sequences against a reference matcher",
+ "C08": ("model_checking", "E1", "explicit-state search (level-synchronous parallel BFS; stateright selectable) over content-line sequences against a reference matcher",
          "every sequence of ≤4 (thorough ≤5) lines over a 12-line alphabet of matching, non-matching, indented, blank, whitespace-only, partially matching and multi-byte lines × 5 anchored/unanchored patterns",
          "regex crate trusted; bounded scope", "§2 C06–C09"),
  "C10": ("model_checking", "E1", "exhaustive enumeration (explicit-state grid) of comment layouts × rule kinds; reported range compared with the constructed position of key / tag",
@@ -34,7 +34,7 @@ CHECKS = {
  "C11": ("model_checking", "E1+E2", "explicit-state search over repository configurations through the real CLI + choice-prefix DFS over block-map and validator-body orders through the library",
          "every repository of ≤2 (thorough ≤3) blocks over 2 files × 11 rule combinations (each rule absent / satisfied / violated by construction) × 7 severity spellings: exit status 1 iff an error-severity diagnostic is expected, stderr one JSON object with every expected (file, block, code, severity) exactly once, root-relative keys, nothing printed without diagnostics, `list` exits 0 with all blocks; the same states under every block-map order × every order of the validator thread bodies (≈470k executions) for the exactly-once clause",
          "which rules a block violates is fixed by construction (C06–C09 decide rule semantics)", "§2 C11"),
- "C12": ("model_checking", "E1", "explicit-state search (stateright) over well-nested kit files; in every state every single-tag damage is applied and the real code must fail naming the file",
+ "C12": ("model_checking", "E1", "explicit-state search (parallel BFS; stateright selectable) over well-nested kit files; in every state every single-tag damage is applied and the real code must fail naming the file",
          "for each grammar (all 39 suffixes) every well-nested file of ≤2 (thorough ≤3) kit segments × every tag × {deleted, duplicated, lost with its comment} × {alone, first, last, between healthy files} × {scan, list, diff, diff+glob}: the run must fail at parsing with an error naming the damaged file",
          "the all-lines-added diff emitter is validated against real git before the search; bounded scope", "§2 C12"),
  "C13": ("fault_enumeration", "E1+E2", "exhaustive enumeration of malformation × position × placement × block-map order, middle position under every schedule of the validator seams; real CLI for status and message",
@@ -58,7 +58,10 @@ CHECKS = {
  "C19": ("fault_enumeration", "E1+E2", "exhaustive enumeration of reply/fault assignments to block sets × all delivery orders (choice-prefix DFS over the seams) against a recording fake endpoint keyed by request content",
          "every set of ≤2 (thorough ≤3) AI blocks over 10 replies and 11 endpoint faults × 2 files × all delivery orders; exactly one faithful request per block (path, bearer key, model, verbatim user message), OK-class ⇒ no diagnostic, other reply ⇒ one diagnostic quoting it on the start tag, any fault ⇒ run fails in every order; verbatim transport of 8 conditions × 7 contents × 4 patterns (quotes, backslashes, newlines, control characters, Unicode); whole-run faults: no key, empty key, connection refused",
          "async-openai/reqwest trusted for wire encoding; 5xx/429 (retried by the library) are outside the property's fault set", "§2 C19"),
- "C09": ("model_checking", "E1", "explicit-state search (stateright) over content-line sequences × layouts, each state carrying the full (operator, spacing, N) grid",
+ "C20": ("model_checking", "E2", "stateless exploration of every owned order (block-map iteration, file discovery, diff-section order) × choice-prefix DFS over the scheduling seams; one canonical observable per repository; CLI for every cwd",
+         "6 catalogue repositories (mixed severities, cross-file affects in diff mode, diff + glob, Lua + AI + sync rules, list with diff, a malformed rule): all block-map orders × file-discovery orders (quick: 3 of them) × all diff-section orders × every schedule of the seams (quick: ≤3 deviations, 27k executions; thorough: all) must give one single status + diagnostic multiset / listed blocks / error; every directory as cwd through the real CLI; fresh processes with 1/16 runtime workers as a labelled sampling supplement",
+         "per-process hash seeds of maps other than the block map and real thread timing are not enumerable: argued order-insensitive, sampled by the supplement", "§2 C20"),
+ "C09": ("model_checking", "E1", "explicit-state search (parallel BFS; stateright selectable) over content-line sequences × layouts, each state carrying the full (operator, spacing, N) grid",
          "every sequence of ≤5 (thorough ≤7) content lines over {statement, blank, whitespace-only, indented, comment, nested start/end tag} in every layout (tag on own line, content on the tag's line, both tags in one comment, adjacent comments) × 5 operators × 3 spacings × N 0..7; presence and data.actual/op/expected of the diagnostic compared with the reference count",
          "bounded scope; large N and large blocks only through the grid", "§2 C06–C09"),
 }
@@ -99,7 +102,7 @@ def main():
         },
         "engines": [
             {"name": "E1", "path": "harness/src/engine.rs", "serves_properties": sorted(p for p, c in CHECKS.items() if "E1" in c[1]),
-             "kind_free_text": "explicit-state search (stateright 0.31 BFS/DFS, 16 threads) over input histories; the invariant evaluated in every state runs the real blockwatch code on the input the state denotes and compares with a reference model"},
+             "kind_free_text": "explicit-state search over input histories (own level-synchronous parallel BFS with an exact visited set, 16 threads; BWMC_ENGINE=stateright runs the same spaces under stateright 0.31 and the thorough tiers cross-check the counts); the invariant evaluated in every state runs the real blockwatch code on the input the state denotes and compares with a reference model"},
             {"name": "E2", "path": "harness/src/e2.rs", "serves_properties": sorted(p for p, c in CHECKS.items() if "E2" in c[1]),
              "kind_free_text": "deviation-bounded stateless exploration (choice-prefix DFS) of every schedule the seams in src/verif_hooks.rs expose: JoinSet completion order, order of validator thread bodies, block-map iteration order; the real code is re-executed once per schedule"},
         ],
